@@ -134,6 +134,7 @@ type HistCfg struct {
 
 // History is a complete generated multi-file binlog.
 type History struct {
+	lastXid        uint64
 	Cfg            HistCfg
 	Files          []*BinFile
 	Units          []*Unit
@@ -166,6 +167,7 @@ type GenOpts struct {
 	TableIDReuse bool   // several ids, re-announcements, type changes
 	OddNames     bool   // unusual binlog file names
 	CountChange  bool   // C15: a cached table id is re-announced with another column count
+	LongIdle     bool   // C17: rarely, thousands of tiny ignorable events in front (round packet ordinals)
 	PoisonJSON   bool   // C06: a JSON value the decoder must reject (decode failure ends the stream with an error)
 	Rare         bool   // enable the rare-coincidence modes (long histories, exact packet sizes, many rows, extreme timestamps)
 	ReplicaID    uint32 // the replica's own server id (events may legitimately carry it: circular topologies)
@@ -340,7 +342,25 @@ type builder struct {
 	forceRows   bool   // every rows event carries at least one row
 	unitSID     uint32 // server id stamped on the events of the current unit (0 = the master's)
 	nameBase    int    // first binlog index of this master minus one
+	filler      int    // the next ignorable unit is a run of this many tiny events
 	forceNextTx bool   // the previous file ended with a torn transaction: the next unit must open with BEGIN
+}
+
+// nextXid: xids are unique within one run of a master only; a restarted master
+// counts from the same start again, so consecutive transactions (in different
+// files, or here anywhere) may carry the same value, and 0 is a value like any other.
+func (b *builder) nextXid() uint64 {
+	switch b.s.Weighted(6, 2, 1, 1) {
+	case 1:
+		return b.h.lastXid
+	case 2:
+		return 0
+	case 3:
+		b.h.lastXid++
+		return b.h.lastXid
+	}
+	b.h.lastXid = b.s.U64()
+	return b.h.lastXid
 }
 
 func (b *builder) curFile() *BinFile { return b.h.Files[b.file] }
@@ -584,6 +604,15 @@ func (b *builder) pickDB() string {
 // ignorable adds 1..2 events that must never alter grouping.
 func (b *builder) ignorable(ts uint32) {
 	s := b.s
+	if b.filler > 0 {
+		// thousands of packets on one connection: "the N-th packet of the dump" for
+		// round N (1000, 1024, 4096, 10000) becomes reachable
+		for i := 0; i < b.filler; i++ {
+			b.add(byte(39+i%50), ts, 0, nil, "UNKNOWN-TYPE (filler)")
+		}
+		b.filler = 0
+		return
+	}
 	n := 1 + s.N(2)
 	for i := 0; i < n; i++ {
 		var added *Event
@@ -932,7 +961,7 @@ func (b *builder) addUnit(kind unitKind) {
 		var commit *Event
 		switch kind {
 		case uTxXID:
-			commit = b.add(evXID, ts, 0, le64(nil, s.U64()), "XID")
+			commit = b.add(evXID, ts, 0, le64(nil, b.nextXid()), "XID")
 		case uTxCommit:
 			sql := mixCase(s, "COMMIT", mix)
 			if s.Chance(1, 5) {
@@ -1090,6 +1119,10 @@ func genHistory(s *Stream, o0 *GenOpts) *History {
 			o.MaxCols = 3
 			o.MaxUnits = minInt(o.MaxUnits, 4)
 			o.Prof = genProfile{MaxStr: 4, Kinds: []colKind{kTiny, kShort, kVarchar}}
+			if s.Chance(1, 2) {
+				// numeric tables whose only by-reference cells are BIT values
+				o.Prof = genProfile{MaxStr: 4, Kinds: []colKind{kTiny, kLong, kBit, kLongLong, kBit}}
+			}
 			o.WideTables = false
 		case 4: // packets of exactly critical sizes
 			exact = true
@@ -1214,6 +1247,10 @@ func genHistory(s *Stream, o0 *GenOpts) *History {
 		}
 	}
 	b.startFile(b.nextFileName(), gap)
+	if o.LongIdle && s.Chance(1, 200) {
+		b.filler = []int{1000, 1024, 4096, 10000}[s.Weighted(1, 1, 1, 2)] + 8
+		b.addUnit(uIgnorable)
+	}
 	if manyTables > 0 {
 		// every table is used for the first time by a one- or two-table statement
 		for i := 0; i < ntab; {
